@@ -63,7 +63,8 @@ impl Model {
         if f.start || f.id as u32 != self.count() {
             v.push(PacketBuilderError::OutOfOrder);
         }
-        if !f.start && f.id as u32 >= self.announced {
+        // (when the packet already has all its frames, any further frame is one too many)
+        if (!f.start && f.id as u32 >= self.announced) || self.count() == self.announced {
             v.push(PacketBuilderError::TooManyFrames);
         }
         v
